@@ -59,9 +59,9 @@ Hypothesis Hc : 0 <= c <= 32768.
 Hypothesis Hz : c * fq < 2 ^ r.
 
 Lemma c_quantize_val x : -32767 <= x <= 32767 ->
-  c_quantize fq c (w16 (r - 16)) x = (if x <? 0 then -1 else 1) * ((Z.abs x + c) * fq / 2 ^ r).
+  c_quantize fq c (r - 16) x = (if x <? 0 then -1 else 1) * ((Z.abs x + c) * fq / 2 ^ r).
 Proof.
-  intros Hx. unfold c_quantize. rewrite (w16_small (r - 16)) by lia. rewrite (s16_small (r - 16)) by lia. cbv zeta.
+  intros Hx. unfold c_quantize. rewrite (s16_small (r - 16)) by lia. cbv zeta.
   replace (r - 16 + 16) with r by lia.
   destruct (two_step fq r (Z.abs x + c) Hr ltac:(lia) Hf) as [_ Hq].
   assert (Hp : 0 <= (Z.abs x + c) * fq < 4294967296) by nia.
@@ -149,13 +149,14 @@ Example quant_gate_needed :
   q_ret q = 0 /\ c_quantize (q_recip q) (q_corr q) (q_shift q) 5 = 3 /\
   s16 (asm_quantize_sse2 (q_recip q) (q_corr q) (q_scale q) (w16 5)) = 0.
 Proof. vm_compute. repeat split; reflexivity. Qed.
-(* outside the proven domain: x = -32768 (never produced by the forward DCT of 8-bit samples)
-   with divisor 65534 *)
+(* outside the proven domain: x = -32768 (never produced by the forward DCT of 8-bit samples):
+   the C code negates a short -32768 (which stays -32768) and then differs from the SIMD lanes *)
 Example quant_int16_min_differs :
-  let q := compute_reciprocal 65534 in
-  q_ret q = 1 /\ c_quantize (q_recip q) (q_corr q) (q_shift q) (-32768) <>
-  s16 (asm_quantize_sse2 (q_recip q) (q_corr q) (q_scale q) (w16 (-32768))).
-Proof. vm_compute. split; [reflexivity | discriminate]. Qed.
+  let q := compute_reciprocal 8 in
+  q_ret q = 1 /\ c_quantize (q_recip q) (q_corr q) (q_shift q) (-32768) = -12288 /\
+  s16 (asm_quantize_sse2 (q_recip q) (q_corr q) (q_scale q) (w16 (-32768))) = -4096 /\
+  s16 (asm_quantize_avx2 (q_recip q) (q_corr q) (q_scale q) (w16 (-32768))) = -4096.
+Proof. vm_compute. repeat split; reflexivity. Qed.
 Example quant_nonvacuous :
   let q := compute_reciprocal (16 * 8) in
   q_ret q = 1 /\ c_quantize (q_recip q) (q_corr q) (q_shift q) (-1000) = -8 /\
